@@ -68,6 +68,18 @@ CLAIMS = {
         note='Trusted base: the table of library-call meanings (CUDD/Sylvan/BuDDy manuals), the line-level .pyx normaliser (result must ast.parse); Cython code generation and the C libraries are outside the claim. One known finding (sylvan quantifier roles).',
         ref='DESIGN.md section 8 C19',
         technique='symbolic execution of the normalised .pyx method bodies with library stubs on z3 bit-vectors; z3 decides equivalence with the real dd.bdd.BDD.apply for all operand values; symbolic reference ledger'),
+    'C08': dict(
+        text='Bounded symbolic model checking of dd.autoref handle lifetimes, one step per public method: from an arbitrary valid manager with symbolic counts, after the method every node count has moved by exactly the number of live Function objects created on it, and is back after they are dropped; every result is a Function of this manager on a present node; disposal is idempotent. Plus the swap / collection steps with the ledger read as live handles, and a live handle\'s views across a swap.',
+        note='dd.bdd computations under the wrappers are contract stubs returning arbitrary present references; temporaries die by CPython reference counting during the symbolic run.',
+        ref='DESIGN.md section 8 C08'),
+    'C17': dict(
+        text='Bounded symbolic model checking of 25 kinds of rejected calls (unknown operator, arity, foreign node, undeclared names, bad values, syntax errors, dangling @n, unknown file types, bad order, foreign Function, ...) from an arbitrary valid manager with reordering off and on: right after the exception tables/counts/order/flags are intact, and the next valid call (during which a reordering request may fire anywhere) behaves normally.',
+        note='ite/find_or_add contract stubs that may request reordering; reorder by contract (identity permutation).',
+        ref='DESIGN.md section 8 C17'),
+    'C18': dict(
+        text='Bounded symbolic model checking of the structural views (no stubs, read-only): Function.var/level/low/high/negated and succ expansions reproduce the function; descendants/len/dag_size equal the reachable set; the networkx graph of to_nx and the DOT text of _to_dot/DotGraph.to_dot, read by an independent evaluator, give the root functions and exactly the reachable nodes.',
+        note='graph shape is concretised by the exporters (hashing/formatting); children signs and levels stay symbolic until then; identical parallel edges are accepted as one edge.',
+        ref='DESIGN.md section 8 C18'),
     'C09': dict(
         text='Bounded symbolic model checking of the reordering schedule: every node-creation request of every public operation is a symbolic "fire here?" decision; the real _try_to_reorder decorator, _ReorderingContext and all decorated/undecorated entry points run over contract stubs; '
              'reorder is replaced by its contract (every reference not externally held becomes stale). Failures: signal reaches the caller, stale reference used, wrong result, reordering left disabled, context flag not restored.',
